@@ -221,7 +221,7 @@ Proof. intros H. rewrite <- (app_nil_r (print_sdec z)). apply strtoll_print_sdec
 
 (* no printed number contains a byte that the line preparation or the line splitter reacts to *)
 Definition plain_char (c : byte) : bool :=
-  negb ((c =? 0) || (c =? 10) || (c =? 59) || (c =? 35) || (c =? 32) || (c =? 9) || (c =? 13)).
+  negb ((c =? 0) || (c =? 10) || (c =? 59) || (c =? 35) || (c =? 32) || (c =? 9) || (c =? 13) || (c =? 34)).
 Lemma dec_char_plain c : is_dec_char c = true -> plain_char c = true.
 Proof.
   unfold is_dec_char, plain_char. intros H. apply andb_true_iff in H. destruct H as [H1 H2].
